@@ -463,6 +463,7 @@ def shard_expr(task):
     flags = frozenset(flags)
 
     def check(c):
+        _hang_guard()
         case, sel, positions, strict = c
         src = case.src
         feats, kinds = expr_labels(src)
@@ -504,6 +505,14 @@ def shard_expr(task):
                     hit.append("C19-default-before-lookup")
             if f.info.get("kid0"):
                 hit.append(f.info["kid0"])
+            if pos:
+                # findings about which names are fetched from the context only show when rendered
+                if feats & {"lambda_vararg", "lambda_kwarg", "lambda_kwonly", "lambda_posonly"}:
+                    hit.append("C19-function-params")
+                if "param_default" in feats:
+                    hit.append("C19-function-default-names")
+                if has_comp and "Lambda" in kinds:
+                    hit.append("C19-comprehension-in-function-names")
             f.info["kid"] = next((h for h in hit if h in known_ids), None)
             raise
 
@@ -709,6 +718,12 @@ def _hang_guard(seconds=120):
 
     signal.signal(signal.SIGALRM, boom)
     signal.alarm(seconds)
+
+
+def _hang_guard_off():
+    import signal
+
+    signal.alarm(0)
 
 
 def shard_block(task):
@@ -1165,7 +1180,10 @@ def tasks_margin(ctx):
 
 def shard_any(task):
     kind, args = task
-    return {"expr": shard_expr, "block": shard_block, "margin": shard_margin}[kind](args)
+    try:
+        return {"expr": shard_expr, "block": shard_block, "margin": shard_margin}[kind](args)
+    finally:
+        _hang_guard_off()  # the guard is re-armed per case; never leave it armed for the next shard of this worker
 
 
 # ---------------------------------------------------------------------------------------------------------
